@@ -270,31 +270,83 @@ func c06OnceKey(c *Check, a *Anchors) {
 func c06RunModeTable(c *Check, a *Anchors, fb *FuncBody) bool {
 	info := fb.Info()
 	name := fnDisplay(fb)
-	var ix *ast.IndexExpr
 	var okVar *types.Var
-	inspectBody(fb.Body, func(nd ast.Node) bool {
-		as, ok := nd.(*ast.AssignStmt)
-		if !ok || len(as.Lhs) != 2 || len(as.Rhs) != 1 {
-			return true
-		}
-		if x, ok := ast.Unparen(as.Rhs[0]).(*ast.IndexExpr); ok {
-			if tv, ok := info.Types[x.X]; ok {
-				if _, isMap := tv.Type.Underlying().(*types.Map); isMap {
-					ix, okVar = x, varOf(info, as.Lhs[1])
+	var tbl *types.Var
+	var idx ast.Expr
+	var at ast.Node
+	tblFn := fb // the function holding the table lookup: GetHash itself, or a lookup helper it calls
+	// lookupIn: `v, ok := table[key]` in body, with table a package-level map
+	lookupIn := func(h *FuncBody) (*ast.IndexExpr, *ast.AssignStmt) {
+		var ix *ast.IndexExpr
+		var asg *ast.AssignStmt
+		inspectBody(h.Body, func(nd ast.Node) bool {
+			as, ok := nd.(*ast.AssignStmt)
+			if !ok || len(as.Lhs) != 2 || len(as.Rhs) != 1 {
+				return true
+			}
+			if x, ok := ast.Unparen(as.Rhs[0]).(*ast.IndexExpr); ok {
+				if tv, ok := h.Info().Types[x.X]; ok {
+					if _, isMap := tv.Type.Underlying().(*types.Map); isMap {
+						ix, asg = x, as
+					}
 				}
 			}
-		}
-		return true
-	})
-	if ix == nil {
+			return true
+		})
+		return ix, asg
+	}
+	if ix, as := lookupIn(fb); ix != nil {
+		tbl, idx, okVar, at = varOf(info, ix.X), ix.Index, varOf(info, as.Lhs[1]), ix
+	} else {
+		// `h, ok := helper(mode)` where the helper looks its parameter up in the table and hands both results back
+		inspectBody(fb.Body, func(nd ast.Node) bool {
+			as, ok := nd.(*ast.AssignStmt)
+			if !ok || len(as.Lhs) != 2 || len(as.Rhs) != 1 || tbl != nil {
+				return true
+			}
+			call, ok := ast.Unparen(as.Rhs[0]).(*ast.CallExpr)
+			if !ok || len(call.Args) != 1 {
+				return true
+			}
+			fn, _ := callee(info, call).(*types.Func)
+			h := c.P.DeclOf(fn)
+			if h == nil || h.Decl == nil || !strings.HasPrefix(h.Pkg.PkgPath, Mod) || h.Type.Params.NumFields() != 1 || len(h.Type.Params.List[0].Names) != 1 {
+				return true
+			}
+			hix, has := lookupIn(h)
+			if hix == nil {
+				return true
+			}
+			hinfo := h.Info()
+			param, _ := hinfo.Defs[h.Type.Params.List[0].Names[0]].(*types.Var)
+			if param == nil || varOf(hinfo, hix.Index) != param {
+				return true
+			}
+			// every return hands back the looked-up pair
+			pair := true
+			nret := 0
+			inspectBody(h.Body, func(m ast.Node) bool {
+				if r, ok := m.(*ast.ReturnStmt); ok {
+					nret++
+					if len(r.Results) != 2 || varOf(hinfo, r.Results[0]) == nil || varOf(hinfo, r.Results[0]) != varOf(hinfo, has.Lhs[0]) || varOf(hinfo, r.Results[1]) != varOf(hinfo, has.Lhs[1]) {
+						pair = false
+					}
+				}
+				return true
+			})
+			if !pair || nret == 0 {
+				return true
+			}
+			tbl, idx, okVar, at, tblFn = varOf(hinfo, hix.X), call.Args[0], varOf(info, as.Lhs[1]), call, h
+			c.Fn(h)
+			return true
+		})
+	}
+	if tbl == nil || at == nil || tbl.Parent() != tbl.Pkg().Scope() {
 		return false
 	}
-	tbl := varOf(info, ix.X)
-	if tbl == nil || tbl.Parent() != tbl.Pkg().Scope() {
-		return false
-	}
+	ix := at
 	// the index: cmp.Or(t.Run, e.Taskfile.Run)
-	idx := ix.Index
 	if v := varOf(info, idx); v != nil {
 		if d := singleDef(info, fb.Body, v); d != nil {
 			idx = d
@@ -308,14 +360,15 @@ func c06RunModeTable(c *Check, a *Anchors, fb *FuncBody) bool {
 	// the table literal
 	got := map[string]string{}
 	var lit *ast.CompositeLit
-	for _, f := range fb.Pkg.Syntax {
+	tinfo := tblFn.Info()
+	for _, f := range tblFn.Pkg.Syntax {
 		ast.Inspect(f, func(nd ast.Node) bool {
 			vs, ok := nd.(*ast.ValueSpec)
 			if !ok {
 				return true
 			}
 			for i, id := range vs.Names {
-				if info.Defs[id] == tbl && i < len(vs.Values) {
+				if tinfo.Defs[id] == tbl && i < len(vs.Values) {
 					lit, _ = ast.Unparen(vs.Values[i]).(*ast.CompositeLit)
 				}
 			}
@@ -333,13 +386,13 @@ func c06RunModeTable(c *Check, a *Anchors, fb *FuncBody) bool {
 		fnName := exprStr(kv.Value)
 		ast.Inspect(kv.Value, func(nd ast.Node) bool {
 			if id, ok := nd.(*ast.Ident); ok {
-				if f, ok := info.Uses[id].(*types.Func); ok && f.Pkg() != nil && f.Pkg().Path() == PkgHash {
+				if f, ok := tinfo.Uses[id].(*types.Func); ok && f.Pkg() != nil && f.Pkg().Path() == PkgHash {
 					fnName = f.Name()
 				}
 			}
 			return true
 		})
-		if t := constText(info, kv.Key); t != "" {
+		if t := constText(tinfo, kv.Key); t != "" {
 			got[t] = fnName
 		} else {
 			got[exprStr(kv.Key)] = fnName
@@ -356,9 +409,15 @@ func c06RunModeTable(c *Check, a *Anchors, fb *FuncBody) bool {
 	}
 	// the table is never written after initialisation
 	written := false
-	for _, b := range c.P.BodiesIn(PkgTask) {
+	for _, b := range c.P.bodies {
+		if !strings.HasPrefix(b.Pkg.PkgPath, Mod) {
+			continue
+		}
 		binfo := b.Info()
-		inspectBody(b.Body, func(nd ast.Node) bool {
+		inspectDeep(b.Body, func(nd ast.Node) bool {
+			if call, ok := nd.(*ast.CallExpr); ok && (isBuiltin(binfo, call, "delete") || isBuiltin(binfo, call, "clear")) && len(call.Args) > 0 && varOf(binfo, call.Args[0]) == tbl {
+				written = true
+			}
 			if as, ok := nd.(*ast.AssignStmt); ok {
 				for _, l := range as.Lhs {
 					if x, ok := ast.Unparen(l).(*ast.IndexExpr); ok && varOf(binfo, x.X) == tbl {
